@@ -139,9 +139,10 @@ class Flow:
                 work.append(e["idx"])
 
     # ---- forward slice ----------------------------------------------------------------------
-    def forward(self, start_locals, through_call=None):
+    def forward(self, start_locals, through_call=None, stop_variants=()):
         """Locals whose value may derive from `start_locals`, and the call sites that receive
-        them as arguments: returns (locals, [(bb, arg index)])."""
+        them as arguments: returns (locals, [(bb, arg index)]).  `stop_variants`: a read through a downcast to one of these
+        variants (`(r as Ok).0`) does not carry the value on — for following an *error* inside a Result."""
         body = self.body
         derived = set(start_locals)
         uses = []
@@ -170,7 +171,8 @@ class Flow:
                     hit = False
                     for o in srcs:
                         p = op_place(o)
-                        if p is not None and p["l"] in derived:
+                        if p is not None and p["l"] in derived and not (stop_variants and any(
+                                isinstance(e, dict) and "v" in e and e.get("n") in stop_variants for e in p["p"])):
                             hit = True
                     if hit and s["place"]["l"] not in derived:
                         derived.add(s["place"]["l"])
